@@ -153,7 +153,7 @@ func buildCatalogue() string {
 	entries := buildCatalogueEntries()
 	var b strings.Builder
 	b.WriteString("-- GENERATED by harness/cmd/extract (run-time dump of every built-in test). Do not edit.\nnamespace Zog.Gen\n\n")
-	b.WriteString("structure CatEntry where\n  builder : String\n  dtype : List Char\n  code : List Char\n  paramKeys : List (List Char)\n\n")
+	b.WriteString("structure CatEntry where\n  builder : String\n  /-- the builder produced exactly one issue when forced to fail -/\n  ok : Bool\n  dtype : List Char\n  code : List Char\n  paramKeys : List (List Char)\n\n")
 	b.WriteString("def catalogue : List CatEntry := [\n")
 	for i, e := range entries {
 		ks := make([]string, len(e.keys))
@@ -161,7 +161,11 @@ func buildCatalogue() string {
 			ks[j] = leanChars(k)
 		}
 		fmt.Fprintf(&b, "  -- %s: dtype=%q code=%q params=%v\n", e.builder, e.dtype, e.code, e.keys)
-		fmt.Fprintf(&b, "  { builder := %q, dtype := %s, code := %s, paramKeys := [%s] }", e.builder, leanChars(e.dtype), leanChars(e.code), strings.Join(ks, ", "))
+		okS := "true"
+		if strings.Contains(e.builder, "!") {
+			okS = "false"
+		}
+		fmt.Fprintf(&b, "  { builder := %q, ok := %s, dtype := %s, code := %s, paramKeys := [%s] }", e.builder, okS, leanChars(e.dtype), leanChars(e.code), strings.Join(ks, ", "))
 		if i < len(entries)-1 {
 			b.WriteString(",")
 		}
